@@ -249,7 +249,31 @@ theorem C06_calls (evs : List Event) (now : Ms) (recs : List Rec) :
           | none => rfl
           | some e => exact ⟨_, rfl, refreshed_markOne_refresh now recs e⟩
 
-/-! ### who is called (lemmas in `Zc/Proofs/Listeners.lean`) -/
+/-! ### "for every response datagram": the literal sentence and the reading
+
+The English says *every* registered update listener is called exactly once before and once after the cache update **for every
+response datagram**.  The code calls nobody when the update list is empty (`if updates:`), i.e. when every record of the datagram
+is a goodbye for something that is not cached.  `C06_calls` is stated for that reading; here the literal sentence is written down
+and refuted, and the reading gets its own name. -/
+
+/-- the literal sentence: both calls are made for every response datagram -/
+def C06_called_for_every_datagram_literal : Prop :=
+  ∀ (evs : List Event) (now : Ms) (recs : List Rec) (out : IngestOut Cache),
+    ingest lower (Cache.ops lower) (cacheAfter lower evs) now recs = .ok out → out.call1.isSome = true ∧ out.call2.isSome = true
+
+/-- **the reading**: the listeners are called (both calls, or neither: `call2 = call1.map …`) exactly for the datagrams that have
+something to tell — at least one record that is live or was cached; a datagram consisting only of goodbyes for uncached records
+calls nobody.  (Such a datagram adds and removes nothing; if one of its goodbyes carries the cache-flush bit it still marks older
+siblings — see the example below — which no update list reports either way.) -/
+theorem C06_called_iff_effective (evs : List Event) (now : Ms) (recs : List Rec) :
+    ∃ out, ingest lower (Cache.ops lower) (cacheAfter lower evs) now recs = .ok out
+      ∧ (out.call1 = none ↔ out.call2 = none)
+      ∧ (out.call1 = none ↔ ∀ r ∈ recs, r.ttl = 0 ∧ (cacheAfter lower evs).getUnique lower r = none) := by
+  obtain ⟨out, ho, h2, h3, _⟩ := C06_calls lower evs now recs
+  refine ⟨out, ho, ?_, h3⟩
+  rw [h2]
+  cases out.call1 <;> simp
+
 
 /-- **C06 (who is called), the sentence**: in a notification round every listener registered at its start (the snapshot) is
 called exactly once, whatever the callbacks do to the listener set.  `catches`: does `async_remove_listener` catch the
@@ -368,6 +392,19 @@ theorem C06_delivery_out (order : List Nat → List Nat) (c : Cache) (ls : List 
       split at hd
       · cases hd; rfl
       · cases hd; rfl
+
+/-- the literal sentence is false of the code (and of the model): a goodbye for a record that is not cached calls nobody -/
+theorem C06_called_for_every_datagram_literal_refuted : ¬ C06_called_for_every_datagram_literal id := by
+  intro h
+  obtain ⟨out, ho, _, h3⟩ := C06_called_iff_effective id [] 1000 [⟨"a.local.", 16, 1, false, 0, 0, .txt [1]⟩]
+  have hn : out.call1 = none := h3.2 (by
+    intro r hr
+    simp only [List.mem_singleton] at hr
+    subst hr
+    exact ⟨rfl, by decide⟩)
+  have := (h [] 1000 _ out ho).1
+  rw [hn] at this
+  cases this
 
 
 /-! ### callbacks that re-enter the record manager (D24)
@@ -654,6 +691,16 @@ theorem C06_completion_reentered_before_fix :
   decide +kernel
 
 /-! non-vacuity -/
+
+/-- a datagram that calls nobody can still change lifetimes: the goodbye of an *uncached* address with the cache-flush bit marks the
+cached sibling `(5000, 1)` although `call1 = none` -/
+example :
+    let a1 : Rec := ⟨"h.local.", 1, 1, true, 120, 0, .addr [10, 0, 0, 1] none⟩
+    let bye2 : Rec := ⟨"h.local.", 1, 1, true, 0, 0, .addr [10, 0, 0, 2] none⟩
+    let res := (ingest id (Cache.ops id) (cacheAfter id [.datagram 1000 [a1]]) 5000 [bye2]).toOption
+    res.map (fun o => o.call1.isNone) = some true
+    ∧ (res.bind (fun o => o.cache.getUnique id a1)).map (fun e => (e.created, e.ttl)) = some (5000, 1) := by
+  decide
 
 /-- the flush fires one millisecond after the second: an address cached at 1000 ms, a cache-flush sibling arriving at
 2001 ms marks it `(2001, 1)`; arriving at 2000 ms it leaves it alone -/
